@@ -30,7 +30,8 @@ EXPLANATION = (
     "non-empty constant, the confidence filter writes a formatted issue on demotion; (V3) the three validators carry pairwise "
     "distinct method constants out of {input-balanced, rule-based, mcs-based} and nothing else writes the method column; (V4) "
     "impute_reaction cannot return normally when the carbon label is 'reactants', the rule-based stage forwards only carbon-balanced "
-    "rows and promotion needs the label 'balanced'."
+    "rows and promotion needs the label 'balanced'; (V5) the confidence filter keeps a row exactly when confidence >= threshold, so the "
+    "default threshold 0 demotes nothing (shared with C13-H1)."
 )
 ASSUMPTIONS = [
     "rows do not pre-populate the tool's own output columns (precondition of the property)",
@@ -270,3 +271,8 @@ def check(ctx) -> None:
     rule_v2(ctx, pl)
     rule_v3(ctx, pl)
     rule_v4(ctx, pl)
+    # V5: with the default threshold (0) the confidence filter demotes nothing:
+    # demotion boundary is strict (shared with C13-H1)
+    from . import c13
+
+    c13.check(ctx, only_h1=True, h1_rule="C03-V5")
